@@ -38,6 +38,7 @@ structure Case where
   stages : Array Nat := #[]
   err : Option String := none
   latches : Nat := 0
+  enRegs : List String := []    -- class enablelogic: anchored registers / write ports with grouped enable logic inside a retimed area
   memRegs : List String := []   -- memory class: (reset value, enable) combination of every backward-retimed register
   hn : Std.HashMap Nat GNode := {}
   tn : Std.HashMap Nat GNode := {}
@@ -67,6 +68,7 @@ structure Stats where
   nHist : Std.HashMap String Nat := {}
   resetHist : Std.HashMap String Nat := {}
   memRegHist : Std.HashMap String Nat := {}
+  enRegHist : Std.HashMap String Nat := {}
   enLowAfterReset : Nat := 0   -- cases in which an enable / stall input is low in the cycles directly after reset (cycles 0 and 1)
 
 def kvOf (toks : List String) (key : String) : String :=
@@ -136,6 +138,7 @@ def finishCase (c : Case) (st0 : Stats) : IO Stats := do
     return { st with diffs := st.diffs + 1, errors := st.errors + 1, propfails := st.propfails + 1 }
   for n in c.stages do st := { st with nHist := bump st.nHist s!"N{n}" }
   for k in c.memRegs do st := { st with memRegHist := bump st.memRegHist k }
+  for k in c.enRegs do st := { st with enRegHist := bump st.enRegHist k }
   if c.stim.size >= 2 && c.enPins.any (fun p => (c.stim[0]!).getD p "1" == "0" && (c.stim[1]!).getD p "1" == "0") then
     st := { st with enLowAfterReset := st.enLowAfterReset + 1 }
   if c.latches > 0 then st := { st with latchCases := st.latchCases + 1 }
@@ -246,6 +249,8 @@ partial def loop (h : IO.FS.Stream) (c : Case) (st : Stats) : IO Stats := do
     let unres := mems.any fun m => (m.splitOn ":").getD 1 "-" == "-"
     loop h { c with groups := c.groups.push pins, unreset := c.unreset || unres } st
   | "step" :: _ :: kind :: rest =>
+    let c := if (kind == "hreg" || kind == "memrw") && kvOf rest "live" == "1" && kvOf rest "h" != "0" then
+        { c with enRegs := (kind ++ (if c.enPins.isEmpty then "_nostall" else "_stall")) :: c.enRegs } else c
     let isReg := kind == "ffreg" || kind == "mreg" || kind == "negreg"
     let unres := isReg && kvOf rest "rst" == "-"
     let hint := (kind == "stage" || kind == "negreg") && kvOf rest "live" == "1"
@@ -275,4 +280,4 @@ partial def loop (h : IO.FS.Stream) (c : Case) (st : Stats) : IO Stats := do
 
 def main : IO Unit := do
   let st ← loop (← IO.getStdin) {} {}
-  IO.println s!"SUMMARY \{\"cases\":{st.cases},\"ops\":{st.ops},\"diffs\":{st.diffs},\"propfails\":{st.propfails},\"rejected_designs\":{st.errors},\"latency_checks\":{st.latChecks},\"latency_skipped\":{st.latSkipped},\"latency_any\":{st.latAny},\"cycles\":{st.cycles},\"stall_cycles\":{st.stallCycles},\"cases_with_holding_circuit\":{st.latchCases},\"hints\":{st.hints},\"twin_undefined_hinted_defined\":{st.undefRefined},\"autonomous_checked_against_lag_twin\":{st.lagChecked},\"autonomous_lag_visible\":{st.lagVisible},\"reset_edge_sampling_cases\":{st.resetEdgeCases},\"cases_enable_low_after_reset\":{st.enLowAfterReset},\"hist\":\{\"backward_retimed_registers\":{jsonOfMap st.memRegHist},\"class\":{jsonOfMap st.cls},\"stages\":{jsonOfMap st.nHist},\"reset\":{jsonOfMap st.resetHist}}}"
+  IO.println s!"SUMMARY \{\"cases\":{st.cases},\"ops\":{st.ops},\"diffs\":{st.diffs},\"propfails\":{st.propfails},\"rejected_designs\":{st.errors},\"latency_checks\":{st.latChecks},\"latency_skipped\":{st.latSkipped},\"latency_any\":{st.latAny},\"cycles\":{st.cycles},\"stall_cycles\":{st.stallCycles},\"cases_with_holding_circuit\":{st.latchCases},\"hints\":{st.hints},\"twin_undefined_hinted_defined\":{st.undefRefined},\"autonomous_checked_against_lag_twin\":{st.lagChecked},\"autonomous_lag_visible\":{st.lagVisible},\"reset_edge_sampling_cases\":{st.resetEdgeCases},\"cases_enable_low_after_reset\":{st.enLowAfterReset},\"hist\":\{\"backward_retimed_registers\":{jsonOfMap st.memRegHist},\"grouped_enable_logic_in_retimed_area\":{jsonOfMap st.enRegHist},\"class\":{jsonOfMap st.cls},\"stages\":{jsonOfMap st.nHist},\"reset\":{jsonOfMap st.resetHist}}}"
